@@ -80,9 +80,10 @@ theorem scalar_char (ext : Ext) (T : IntTy) (c : Nat) (h : T.inRange c = true) :
   cases T <;> simp [interpScalar, intDataType, convLeaf, tryInto, h, bind, Except.bind, pure, Except.pure]
 
 theorem scalar_string (ext : Ext) (dt : DataType) (x : SVal) (s : String)
-    (hdt : dt = .utf8 ∨ dt = .largeUtf8 ∨ ∃ k v, dt = .dictionary k v) (hs : scalarToString ext x = some s) :
+    (hdt : dt = .utf8 ∨ dt = .largeUtf8 ∨ ∃ k v, dt = .dictionary k v ∧ (v = .utf8 ∨ v = .largeUtf8))
+    (hs : scalarToString ext x = some s) :
     ∃ lv, interpScalar ext dt x = .ok lv := by
-  rcases hdt with rfl | rfl | ⟨k, v, rfl⟩ <;> simp [interpScalar, hs]
+  rcases hdt with rfl | rfl | ⟨k, v, rfl, rfl | rfl⟩ <;> simp [interpScalar, interpDictStr, hs]
 
 theorem isUtf8_iff (d : DataType) : isUtf8 d = true ↔ d = .utf8 := by cases d <;> simp [isUtf8]
 theorem isLargeUtf8_iff (d : DataType) : isLargeUtf8 d = true ↔ d = .largeUtf8 := by cases d <;> simp [isLargeUtf8]
@@ -107,7 +108,8 @@ theorem strType_ne_null (o : Options) (s : String) : strType o s ≠ .null := by
 
 /-- the field data type of a primitive tracer of type `ty`: the type itself or (strings, dictionary encoding) a
 dictionary -/
-def FieldOf (ty dt : DataType) : Prop := dt = ty ∨ ((isLargeUtf8 ty || isUtf8 ty) = true ∧ ∃ k v, dt = .dictionary k v)
+def FieldOf (ty dt : DataType) : Prop :=
+  dt = ty ∨ ((isLargeUtf8 ty || isUtf8 ty) = true ∧ ∃ k v, dt = .dictionary k v ∧ (v = .utf8 ∨ v = .largeUtf8))
 
 theorem leaf_interp (ext : Ext) (o : Options) (b : Bool) {ty a : DataType} (hp : okPair ty a = true) {x : SVal}
     (hx : leafTypeOf o x = some a) (hna : a ≠ .null) (hok : sampleOK b x = true) {dt : DataType} (hdt : FieldOf ty dt)
@@ -119,12 +121,12 @@ theorem leaf_interp (ext : Ext) (o : Options) (b : Bool) {ty a : DataType} (hp :
       ∃ lv, interpScalar ext dt x = .ok lv := by
     intro hty s hs
     refine scalar_string ext dt x s ?_ hs
-    rcases hdt with rfl | ⟨_, k, v, rfl⟩
+    rcases hdt with rfl | ⟨_, k, v, rfl, hv⟩
     · simp only [Bool.or_eq_true, isUtf8_iff, isLargeUtf8_iff] at hty
       rcases hty with h | h
       · exact .inl h
       · exact .inr (.inl h)
-    · exact .inr (.inr ⟨k, v, rfl⟩)
+    · exact .inr (.inr ⟨k, v, rfl, hv⟩)
   have hnostr : (isLargeUtf8 ty || isUtf8 ty) = false → dt = ty := by
     intro h
     rcases hdt with rfl | ⟨h', _⟩
@@ -298,7 +300,7 @@ theorem PI_leaf (o : Options) (ext : Ext) (h0 : o.overwrites = []) (x : SVal) (a
       rcases to_field_primitive_inv h0 hf with ⟨e, _⟩ | ⟨_, hs', ⟨_, rfl⟩ | ⟨_, rfl⟩⟩ | ⟨_, _, rfl⟩
       · exact absurd e hty2
       · exact .inl rfl
-      · exact .inr ⟨hs', _, _, rfl⟩
+      · exact .inr ⟨hs', _, _, rfl, string_type_cases o⟩
       · exact .inl rfl
     have hex' : exclAny ext f.dataType x = false := by
       cases x <;> simp only [leafTypeOf, reduceCtorEq] at hx <;> simpa [hits] using hex
